@@ -838,3 +838,8 @@ def restarts_fallback_rename(rng):
         s.append(["drain"])
     return dict(flavour=fl.key(), base=g.base, schedule=s, hash_mult=rng.choice([1, 3, 7, 11, 2654435761]),
                 mode=dict(origin=side, check_spec=True, no_conflicted=True, cov_every_step=True))
+
+
+def run_storage_oracle(case, monitor):
+    """C08 at engine level: any history over a sqlite file, storage == memory checked after every engine step"""
+    return EC.run_case(case, monitor, storage_factory="sqlite-file", oracles=("storage_strict",))
